@@ -532,3 +532,235 @@ Proof.
   - apply npda_row_In in Hin. destruct Hin as [ar [_ [Hc|[Z [_ Hc]]]]]; inversion Hc; auto.
   - apply dpda_row_In in Hin. destruct Hin as [ar [_ [Hc|[Z [_ [Hc|Hc]]]]]]; inversion Hc; auto.
 Qed.
+
+(* ------------------------------------------------------------------ Turing machines *)
+Record wf_tm (m : rtm) : Prop := mk_wf_tm {
+  wt_input : incl (t_insyms m) (t_tapesyms m) /\ exists s, In s (t_tapesyms m) /\ ~ In s (t_insyms m);
+  wt_blank : In (t_blank m) (t_tapesyms m);
+  wt_rows : forall q row, In (q, row) (t_trans m) -> In q (t_states m);
+  wt_keys : forall q row key rs s, In (q, row) (t_trans m) -> In (key, rs) row -> In s key -> In s (t_tapesyms m);
+  wt_results : forall q row key rs q' mvs w d, In (q, row) (t_trans m) -> In (key, rs) row -> In (q', mvs) rs ->
+               In (w, d) mvs -> In q' (t_states m) /\ In w (t_tapesyms m) /\ d <= 2;
+  wt_init : In (t_init m) (t_states m);
+  wt_init_row : In (t_init m) (map fst (t_trans m)) \/ length (t_states m) <= 1;
+  wt_init_nonfinal : ~ In (t_init m) (t_finals m);
+  wt_finals : incl (t_finals m) (t_states m);
+  wt_final_rows : forall f, In f (t_finals m) -> ~ In f (map fst (t_trans m)) }.
+
+(* MNTM: additionally every key and every result has exactly n components *)
+Definition wf_mntm (n : nat) (m : rtm) : Prop :=
+  wf_tm m /\ forall q row key rs, In (q, row) (t_trans m) -> In (key, rs) row ->
+                length key = n /\ forall r, In r rs -> length (snd r) = n.
+
+Lemma tm_row_In m q row c :
+  In c (tm_row_checks m q row) <->
+  c = (1, memb q (t_states m)) \/
+  (exists kr s, In kr row /\ In s (fst kr) /\ c = (2, memb s (t_tapesyms m))) \/
+  (exists kr r mv, In kr row /\ In r (snd kr) /\ In mv (snd r) /\
+     (c = (1, memb (fst r) (t_states m)) \/ c = (2, memb (fst mv) (t_tapesyms m)) \/ c = (30, Nat.leb (snd mv) 2))).
+Proof.
+  unfold tm_row_checks. simpl. rewrite in_app_iff, in_map_iff, in_flat_map.
+  split.
+  - intros [H|[[s [E Hs]]|[kr [Hkr H]]]].
+    + left. symmetry. exact H.
+    + right. left. apply in_concat in Hs. destruct Hs as [key [Hkey Hs]]. apply in_map_iff in Hkey.
+      destruct Hkey as [kr [Ek Hkr]]. subst key. exists kr, s. repeat split; [exact Hkr|exact Hs|symmetry; exact E].
+    + right. right. apply in_flat_map in H. destruct H as [r [Hr H]]. unfold tm_result_checks in H.
+      apply in_flat_map in H. destruct H as [mv [Hmv H]]. exists kr, r, mv. repeat split; try assumption.
+      simpl in H. destruct H as [H|[H|[H|[]]]]; [left|right; left|right; right]; symmetry; exact H.
+  - intros [H|[[kr [s [Hkr [Hs H]]]]|[kr [r [mv [Hkr [Hr [Hmv H]]]]]]]].
+    + left. symmetry. exact H.
+    + right. left. exists s. split; [symmetry; exact H|]. apply in_concat. exists (fst kr). split; [|exact Hs].
+      apply in_map. exact Hkr.
+    + right. right. exists kr. split; [exact Hkr|]. apply in_flat_map. exists r. split; [exact Hr|].
+      unfold tm_result_checks. apply in_flat_map. exists mv. split; [exact Hmv|]. simpl.
+      destruct H as [H|[H|H]]; [left|right; left|right; right; left]; symmetry; exact H.
+Qed.
+
+Definition tm_tail_checks (m : rtm) : list check :=
+  [(1, memb (t_init m) (t_states m));
+   (3, memb (t_init m) (map fst (t_trans m)) || Nat.leb (length (t_states m)) 1);
+   (5, negb (memb (t_init m) (t_finals m)));
+   (1, subsetb (t_finals m) (t_states m));
+   (6, forallb (fun f => negb (memb f (map fst (t_trans m)))) (t_finals m))].
+
+Lemma tm_checks_In m c :
+  In c (tm_checks m) <->
+  c = (4, subsetb (t_insyms m) (t_tapesyms m) && negb (subsetb (t_tapesyms m) (t_insyms m))) \/
+  c = (2, memb (t_blank m) (t_tapesyms m)) \/
+  (exists qr, In qr (t_trans m) /\ In c (tm_row_checks m (fst qr) (snd qr))) \/
+  In c (tm_tail_checks m).
+Proof.
+  unfold tm_checks. rewrite in_app_iff. simpl. rewrite in_app_iff, in_flat_map. fold (tm_tail_checks m).
+  split.
+  - intros [[H|[H|[]]]|[H|H]]; auto.
+  - intros [H|[H|[H|H]]]; auto.
+Qed.
+
+Lemma tm_checks_ok_iff m : (forall c, In c (tm_checks m) -> snd c = true) <-> wf_tm m.
+Proof.
+  split.
+  - intro H.
+    assert (Hr : forall q row c, In (q, row) (t_trans m) -> In c (tm_row_checks m q row) -> snd c = true).
+    { intros q row c Hrow Hc. apply H. apply tm_checks_In. right. right. left. exists (q, row). split; assumption. }
+    assert (Ht : forall c, In c (tm_tail_checks m) -> snd c = true).
+    { intros c Hc. apply H. apply tm_checks_In. right. right. right. exact Hc. }
+    constructor.
+    + assert (E := H (4, _) (proj2 (tm_checks_In m _) (or_introl eq_refl))). simpl in E.
+      apply andb_true_iff in E. destruct E as [E1 E2]. split; [apply subsetb_incl; exact E1|].
+      apply negb_true_iff in E2. apply subsetb_false in E2. exact E2.
+    + apply memb_In. apply (H (2, _)). apply tm_checks_In. right. left. reflexivity.
+    + intros q row Hrow. apply memb_In. apply (Hr q row (1, _) Hrow). apply tm_row_In. left. reflexivity.
+    + intros q row key rs s Hrow Hk Hs. apply memb_In. apply (Hr q row (2, memb s (t_tapesyms m)) Hrow).
+      apply tm_row_In. right. left. exists (key, rs), s. repeat split; assumption.
+    + intros q row key rs q' mvs w d Hrow Hk Hr' Hmv.
+      assert (G : forall c, (c = (1, memb q' (t_states m)) \/ c = (2, memb w (t_tapesyms m)) \/ c = (30, Nat.leb d 2)) -> snd c = true).
+      { intros c Hc. apply (Hr q row c Hrow). apply tm_row_In. right. right.
+        exists (key, rs), (q', mvs), (w, d). repeat split; assumption. }
+      repeat split.
+      * apply memb_In. apply (G (1, _)). auto.
+      * apply memb_In. apply (G (2, _)). auto.
+      * apply Nat.leb_le. apply (G (30, _)). auto.
+    + apply memb_In. apply (Ht (1, _)). simpl. auto.
+    + assert (E := Ht (3, _) (or_intror (or_introl eq_refl))). simpl in E. apply orb_true_iff in E.
+      destruct E as [E|E]; [left; apply memb_In; exact E|right; apply Nat.leb_le; exact E].
+    + apply memb_false. apply negb_true_iff. apply (Ht (5, _)). simpl. auto.
+    + apply subsetb_incl. apply (Ht (1, _)). simpl. auto.
+    + assert (E := Ht (6, _) (or_intror (or_intror (or_intror (or_intror (or_introl eq_refl)))))). simpl in E.
+      rewrite forallb_forall in E. intros f Hf. apply memb_false. apply negb_true_iff. apply E. exact Hf.
+  - intros [[H1 [s [Hs Hns]]] H2 H3 H4 H5 H6 H7 H8 H9 H10] c Hc. apply tm_checks_In in Hc.
+    destruct Hc as [Hc|[Hc|[[[q row] [Hrow Hc]]|Hc]]].
+    + subst. simpl. apply andb_true_iff. split; [apply subsetb_incl; exact H1|].
+      apply negb_true_iff. destruct (subsetb (t_tapesyms m) (t_insyms m)) eqn:E; [|reflexivity].
+      apply subsetb_incl in E. exfalso. apply Hns. apply E. exact Hs.
+    + subst. simpl. apply memb_In. exact H2.
+    + simpl in Hc. apply tm_row_In in Hc.
+      destruct Hc as [Hc|[[[key rs] [s' [Hk [Hs' Hc]]]]|[[key rs] [[q' mvs] [[w d] [Hk [Hr [Hmv Hc]]]]]]]].
+      * subst. simpl. apply memb_In. eapply H3; eauto.
+      * subst. simpl. apply memb_In. eapply H4; eauto.
+      * simpl in Hr, Hmv. destruct (H5 q row key rs q' mvs w d Hrow Hk Hr Hmv) as [G1 [G2 G3]].
+        destruct Hc as [Hc|[Hc|Hc]]; subst; simpl.
+        -- apply memb_In. exact G1.
+        -- apply memb_In. exact G2.
+        -- apply Nat.leb_le. exact G3.
+    + simpl in Hc. destruct Hc as [Hc|[Hc|[Hc|[Hc|[Hc|[]]]]]]; subst; simpl.
+      * apply memb_In. exact H6.
+      * apply orb_true_iff. destruct H7 as [H7|H7]; [left; apply memb_In; exact H7|right; apply Nat.leb_le; exact H7].
+      * apply negb_true_iff. apply memb_false. exact H8.
+      * apply subsetb_incl. exact H9.
+      * apply forallb_forall. intros f Hf. apply negb_true_iff. apply memb_false. apply H10. exact Hf.
+Qed.
+
+Theorem tm_validate_iff_wf m : tm_validate m = Ok tt <-> wf_tm m.
+Proof. unfold tm_validate. rewrite first_bad_ok. apply tm_checks_ok_iff. Qed.
+
+Lemma tapes_consistent_iff n m :
+  tapes_consistent n m = true <->
+  forall q row key rs, In (q, row) (t_trans m) -> In (key, rs) row ->
+    length key = n /\ forall r, In r rs -> length (snd r) = n.
+Proof.
+  unfold tapes_consistent. rewrite forallb_forall. split.
+  - intros H q row key rs Hrow Hk. specialize (H (q, row) Hrow). simpl in H.
+    rewrite forallb_forall in H. specialize (H (key, rs) Hk). simpl in H.
+    apply andb_true_iff in H. destruct H as [E1 E2]. split; [apply Nat.eqb_eq; exact E1|].
+    rewrite forallb_forall in E2. intros r Hr. apply Nat.eqb_eq. apply E2. exact Hr.
+  - intros H [q row] Hrow. simpl. apply forallb_forall. intros [key rs] Hk. simpl.
+    destruct (H q row key rs Hrow Hk) as [E1 E2]. apply andb_true_iff. split; [apply Nat.eqb_eq; exact E1|].
+    apply forallb_forall. intros r Hr. apply Nat.eqb_eq. apply E2. exact Hr.
+Qed.
+
+Theorem mntm_validate_iff_wf n m : mntm_validate n m = Ok tt <-> wf_mntm n m.
+Proof.
+  unfold mntm_validate, mntm_checks, wf_mntm. rewrite first_bad_ok. rewrite <- tm_checks_ok_iff, <- tapes_consistent_iff.
+  split.
+  - intro H. split.
+    + intros c Hc. apply H. apply in_app_iff. left. exact Hc.
+    + apply (H (31, _)). apply in_app_iff. right. left. reflexivity.
+  - intros [H1 H2] c Hc. apply in_app_iff in Hc. destruct Hc as [Hc|[Hc|[]]]; [apply H1; exact Hc|subst; exact H2].
+Qed.
+
+(* the multitape checker raises what the single-tape part raises, and InconsistentTapesException only when
+   everything else is in order *)
+Theorem mntm_validate_order n m :
+  (forall e, tm_validate m = Err e -> mntm_validate n m = Err e) /\
+  (tm_validate m = Ok tt -> mntm_validate n m = if tapes_consistent n m then Ok tt else Err (Invalid 31)).
+Proof.
+  unfold mntm_validate, mntm_checks, tm_validate. generalize (tm_checks m) as cs.
+  induction cs as [|[k b] r IH]; simpl.
+  - split; [discriminate|]. intros _. destruct (tapes_consistent n m); reflexivity.
+  - destruct b; [exact IH|]. split; [intros e H; exact H|discriminate].
+Qed.
+
+(* ------------------------------------------------------------------ GNFA (structural level) *)
+Record wf_gnfa (m : gnfa) : Prop := mk_wf_gnfa {
+  wg_init : In (g_init m) (g_states m);
+  wg_final : In (g_final m) (g_states m);
+  wg_labels : forall q row t b, In (q, row) (g_trans m) -> In (t, Some b) row -> b = true;
+  wg_final_row : forall row, In (g_final m, row) (g_trans m) -> row = [];
+  wg_complete : forall q row s, In (q, row) (g_trans m) -> q <> g_final m -> In s (g_states m) -> s <> g_init m ->
+                In s (map fst row);
+  wg_ends : forall q row t l, In (q, row) (g_trans m) -> In (t, l) row -> In t (g_states m);
+  wg_init_row : In (g_init m) (map fst (g_trans m)) \/ length (g_states m) <= 1 }.
+
+Lemma gnfa_checks_In m c :
+  In c (gnfa_checks m) <->
+  c = (1, memb (g_init m) (g_states m)) \/ c = (1, memb (g_final m) (g_states m)) \/
+  (exists qr, In qr (g_trans m) /\ In c (gnfa_row_checks m (fst qr) (snd qr))) \/
+  c = (3, memb (g_init m) (map fst (g_trans m)) || Nat.leb (length (g_states m)) 1).
+Proof.
+  unfold gnfa_checks. rewrite in_app_iff. simpl. rewrite in_app_iff, in_flat_map. simpl.
+  split.
+  - intros [[H|[H|[]]]|[H|[H|[]]]]; auto.
+  - intros [H|[H|[H|H]]]; auto.
+Qed.
+
+Lemma gnfa_checks_ok_iff m : (forall c, In c (gnfa_checks m) -> snd c = true) <-> wf_gnfa m.
+Proof.
+  split.
+  - intro H.
+    assert (Hr : forall q row c, In (q, row) (g_trans m) -> In c (gnfa_row_checks m q row) -> snd c = true).
+    { intros q row c Hrow Hc. apply H. apply gnfa_checks_In. right. right. left. exists (q, row). split; assumption. }
+    constructor.
+    + apply memb_In. apply (H (1, _)). apply gnfa_checks_In. auto.
+    + apply memb_In. apply (H (1, _)). apply gnfa_checks_In. auto.
+    + intros q row t b Hrow Ht.
+      assert (E : forallb (fun p => label_ok (snd p)) row = true).
+      { apply (Hr q row (10, _) Hrow). simpl. auto. }
+      rewrite forallb_forall in E. specialize (E (t, Some b) Ht). simpl in E. destruct b; [reflexivity|discriminate].
+    + intros row Hrow.
+      assert (E := Hr _ row (1, match row with [] => true | _ => false end) Hrow).
+      unfold gnfa_row_checks in E. rewrite Nat.eqb_refl in E. simpl in E.
+      destruct row; [reflexivity|]. discriminate E. auto.
+    + intros q row s Hrow Hq Hs Hsi.
+      assert (E := Hr q row (3, forallb (fun s => Nat.eqb s (g_init m) || memb s (map fst row)) (g_states m)) Hrow).
+      unfold gnfa_row_checks in E. apply Nat.eqb_neq in Hq. rewrite Hq in E. simpl in E.
+      assert (E' := E (or_intror (or_introl eq_refl))). rewrite forallb_forall in E'. specialize (E' s Hs).
+      apply orb_true_iff in E'. destruct E' as [E'|E']; [apply Nat.eqb_eq in E'; contradiction|apply memb_In; exact E'].
+    + intros q row t l Hrow Ht.
+      assert (E : forallb (fun p => memb (fst p) (g_states m)) row = true).
+      { apply (Hr q row (1, _) Hrow). simpl. auto. }
+      rewrite forallb_forall in E. apply memb_In. apply (E (t, l)). exact Ht.
+    + assert (E := H (3, _) (proj2 (gnfa_checks_In m _) (or_intror (or_intror (or_intror eq_refl))))).
+      simpl in E. apply orb_true_iff in E.
+      destruct E as [E|E]; [left; apply memb_In; exact E|right; apply Nat.leb_le; exact E].
+  - intros [H1 H2 H3 H4 H5 H6 H7] c Hc. apply gnfa_checks_In in Hc.
+    destruct Hc as [Hc|[Hc|[[[q row] [Hrow Hc]]|Hc]]]; subst; simpl.
+    + apply memb_In. exact H1.
+    + apply memb_In. exact H2.
+    + simpl in Hc. destruct Hc as [Hc|[Hc|[Hc|[]]]]; subst; simpl.
+      * apply forallb_forall. intros [t [b|]] Ht; simpl; [|reflexivity]. rewrite (H3 q row t b Hrow Ht). reflexivity.
+      * destruct (Nat.eqb q (g_final m)) eqn:Eq; simpl.
+        -- apply Nat.eqb_eq in Eq. subst q. rewrite (H4 row Hrow). reflexivity.
+        -- apply Nat.eqb_neq in Eq. apply forallb_forall. intros s Hs. apply orb_true_iff.
+           destruct (Nat.eqb s (g_init m)) eqn:Es; [left; reflexivity|right].
+           apply Nat.eqb_neq in Es. apply memb_In. eapply H5; eauto.
+      * apply forallb_forall. intros [t l] Ht. simpl. apply memb_In. eapply H6; eauto.
+    + apply orb_true_iff. destruct H7 as [H7|H7]; [left; apply memb_In; exact H7|right; apply Nat.leb_le; exact H7].
+Qed.
+
+Theorem gnfa_validate_iff_wf m : gnfa_validate m = Ok tt <-> wf_gnfa m.
+Proof. unfold gnfa_validate. rewrite first_bad_ok. apply gnfa_checks_ok_iff. Qed.
+
+(* ------------------------------------------------------------------ every checker only raises documented kinds *)
+Theorem validate_only_invalid cs e : first_bad cs = Err e -> exists k, e = Invalid k.
+Proof. intro H. destruct (first_bad_err _ _ H) as [k [E _]]. exists k. exact E. Qed.
